@@ -6,7 +6,7 @@
  kind=line   o_c09: one line per read -> item i after at most the reads that deliver its line"""
 from streams import docs
 
-OFF = {"o_skip": 1, "o_c01": 1, "o_c04": 2, "o_c05": 1, "o_exp": 2, "o_c09": 2, "o_rt": 1, "o_b2c": 1}
+OFF = {"o_new": 1, "o_skip": 1, "o_c01": 1, "o_c04": 2, "o_c05": 1, "o_exp": 2, "o_c09": 2, "o_rt": 1, "o_b2c": 1}
 
 def class_edge_case(rng):
     """a byte just outside a scanner's character class directly before/after a keyword or numeral, delivered byte by
@@ -75,7 +75,14 @@ def gen_safe(rng, n):
                 data = docs.mutate(rng, data)
         if parser in ("aag", "aig") and rng.random() < 0.4:
             flags = "w"
-        sched = docs.gen_schedule(rng, len(data)) if rng.random() < 0.3 else None
+        sched = docs.gen_schedule(rng, len(data)) if rng.random() < 0.45 else None
+        if sched is not None and rng.random() < 0.45:     # a source that fails or ends early somewhere
+            evs, pre, chunk, ctor = sched
+            parts = [] if evs == "-" else evs.split(",")
+            if not parts:
+                parts = ["d%d" % rng.randrange(1, len(data) + 2) for _ in range(rng.randrange(0, 3))]
+            parts = parts[:rng.randrange(0, len(parts) + 1)] + [rng.choice(["f7", "f3", "e"])]
+            sched = (",".join(parts), pre, chunk, ctor)
         out.append("o_c05 " + docs.setup(parser, ty, flags, data, sched))
     return out
 
@@ -150,16 +157,43 @@ def gen_skip(rng, n):
     check — the rest"""
     out = []
     while len(out) < n:
-        parser, ty, flags, data, _ = docs.gen_doc(rng, parser=rng.choice(["aag", "aig"]))
-        if "w" in flags:
-            flags = "-"
+        if rng.random() < 0.2:        # binary and-gate sections containing 0x0A bytes, an error behind them
+            c = docs.aig_lf_corruption(rng)
+            if c is None:
+                continue
+            parser, ty, flags, data, _ = c
+        else:
+            parser, ty, flags, data, _ = docs.gen_doc(rng, parser=rng.choice(["aag", "aig"]))
         k = rng.choice([0, 0, 1, 1, 2, 3])
-        sched = docs.gen_schedule(rng, len(data)) if rng.random() < 0.3 else None
+        sched = docs.gen_schedule(rng, len(data)) if rng.random() < 0.5 else None
+        if sched is not None and rng.random() < 0.5:     # the source fails somewhere (also inside skipped entries)
+            evs, pre, chunk, ctor = sched
+            cut = rng.randrange(0, len(data) + 1)
+            sched = ("d%d,f7" % cut if cut else "f7", 0, chunk, "r")
         out.append("o_skip " + docs.setup(parser, ty, "k%d" % k, data, sched))
     return out
 
 
-KINDS = {"skip": gen_skip, "limits": gen_limits, "corrupt": gen_corrupt, "rt": gen_rt, "chunk": gen_chunk, "fault": gen_fault, "safe": gen_safe, "expect": gen_expect, "line": gen_line}
+def gen_new(rng, n):
+    """Parser::new(LineReader::new(reader)) on a reader from which the caller has already consumed k bytes: must equal a
+    parser started on the remaining input (items, final outcome, error locations)"""
+    out = []
+    pool = []
+    while len(out) < n:
+        if not pool:
+            pool = [(p, t, f, d) for (p, t, f, d, _) in docs.corruption_cases(rng, 40) if p != "log"]
+        if rng.random() < 0.5:
+            parser, ty, flags, data = pool.pop()
+        else:
+            parser, ty, flags, data, _ = docs.gen_doc(rng, parser=rng.choice(["cnf", "wcnf", "gcnf", "aag", "aig", "btor2"]))
+        nls = [i + 1 for i, b in enumerate(data) if b == 10]
+        k = rng.choice([0, 1, 3] + nls[:3] + [rng.randrange(0, len(data) + 1)])
+        chunk = rng.choice([16384, 16384, 1, 7, 64])
+        out.append("o_new " + docs.setup(parser, ty, flags if flags in ("-", "h") else "-", data, ("-", min(k, len(data)), chunk, "n")))
+    return out
+
+
+KINDS = {"new": gen_new, "skip": gen_skip, "limits": gen_limits, "corrupt": gen_corrupt, "rt": gen_rt, "chunk": gen_chunk, "fault": gen_fault, "safe": gen_safe, "expect": gen_expect, "line": gen_line}
 
 def gen(rng, n, tier, kind="chunk", **kw):
     return KINDS[kind](rng, n)
